@@ -17,7 +17,7 @@ META = {
                    "path of the responders (CacheResponse, payload PDUs only, EndOfData, flush — or exactly one "
                    "CacheReset/Error); one responder per query kind and Serial Notify only from the dispatch loop; the "
                    "version / length / PDU-type decision tables of the receive path computed by abstract interpretation and "
-                   "compared with the RFC error codes.",
+                   "compared with the RFC error codes; the negotiated version is written only where the connection is created, by the version check and by the receive path.",
     "not_decided": ["independence of the response sequence from fragmentation and notify interleaving for all schedules"],
     "trusted_base": ["tokio write_all/flush", "futures_util::future::select drops the losing future"],
 }
